@@ -69,6 +69,8 @@ def _blocking(kind, n, p_size, bad, nd):
             break
         except bp.TimeoutError:
             return fail('C02:iterator:TimeoutError-although-no-timeout-was-requested:' + kind)
+        except Prune:
+            raise
         except Exception as exc:
             einfo = exc.args[0] if exc.args else None
             if W.einfo_type(einfo) is not ValueError:
